@@ -29,6 +29,13 @@ pub fn verif_dir() -> PathBuf {
     std::env::var("VERIF_DIR").map(PathBuf::from).unwrap_or_else(|_| PathBuf::from("/verif"))
 }
 
+/// Where evidence/ and replays/ are written. Runs against anything but the repository itself (mutant
+/// worktrees, `VERIF_REPO` set) must point this elsewhere so that the committed evidence always describes
+/// a run on /repo; bin/check enforces that.
+pub fn out_dir() -> PathBuf {
+    std::env::var("VERIF_OUT_DIR").map(PathBuf::from).unwrap_or_else(|_| verif_dir())
+}
+
 #[derive(Clone, Debug)]
 pub struct Violation {
     /// stable signature: cause tag of the monitor (what known findings are matched on)
@@ -85,7 +92,7 @@ pub fn load_known() -> Vec<KnownFinding> {
 
 /// Writes evidence + replay files, prints the verdict lines, returns the exit code.
 pub fn finish(mut rep: Report, tier: Tier, t0: std::time::Instant) -> i32 {
-    let dir = verif_dir();
+    let dir = out_dir();
     let seed: i64 = std::env::var("VERIF_SEED").ok().and_then(|s| s.parse().ok()).unwrap_or(0);
     let known = load_known();
     let mut new_viol = 0;
